@@ -551,6 +551,12 @@ func queryScenarios(tier string) []qScn {
 					add(qScn{tries: tries, rl: rl, budget: budget, reps: rlReps, tag: "rl", script: []qDir{d("g", k, "reply")}})
 				}
 				add(qScn{tries: tries, rl: rl, budget: budget, reps: rlReps, tag: "rl", fail: 1})
+				if budget == 3 || budget == 0 {
+					// the blocklist and the closed flag are consulted whatever the rate policy
+					add(qScn{tries: tries, rl: rl, budget: budget, tag: "rl-blocked", blocked: true})
+					add(qScn{tries: tries, rl: rl, budget: budget, tag: "rl-closed", closed0: true})
+					add(qScn{tries: tries, rl: rl, budget: budget, tag: "rl-blocklist-installed-after-send", script: []qDir{d("g", 1, "block")}})
+				}
 			}
 		}
 	}
